@@ -98,8 +98,8 @@ Eject(fl, ag, mi, b) == [flag |-> [fl EXCEPT ![b] = FALSE], age |-> [ag EXCEPT !
                          mirror |-> [mi EXCEPT ![b] = FALSE]]
 
 \* one client request by client c whose backend exchange ends with outcome o
-Req(c, o) ==
-  LET f == FindBackend(c) IN
+\* f = [b, s]: the selection (0 = none) and the selection state it leaves behind
+ReqWith(c, o, f) ==
   /\ rr' = f.s.rr /\ cw' = f.s.cw
   /\ UNCHANGED <<strat, order, probe>>
   /\ IF f.b = 0
@@ -121,6 +121,8 @@ Req(c, o) ==
           /\ age' = IF trip THEN e.age ELSE age
           /\ evs' = <<[ev |-> "req", c |-> c, o |-> o], [ev |-> "dispatch", b |-> b],
                       [ev |-> "reply", kind |-> (IF o = "hold" THEN "held" ELSE o), b |-> b]>>
+
+Req(c, o) == ReqWith(c, o, FindBackend(c))
 
 \* a held exchange completes successfully
 Release(b) == /\ infl[b] > 0
